@@ -5,8 +5,9 @@ cd "$(dirname "$0")/.."
 mkdir -p build evidence replays lean/GoaktVerif/Gen
 export GOFLAGS=-mod=mod GOPROXY=off
 unset GOSUMDB GOTOOLCHAIN || true
-for t in go2lean; do (cd tools/$t && go build -o ../../build/$t .); done
+for t in go2lean yieldinject factextract; do (cd tools/$t && go build -o ../../build/$t .); done
 python3 tools/regen_all.py
-(cd lean && lake build && lake build gvdriver)
+# the whole library is built to warm the cache; a property whose proof does not build is reported by its own check
+(cd lean && (lake build || echo 'setup: some Lean modules did not build (reported by the checks concerned)') && lake build gvdriver)
 # warm the Go build cache for the harness binaries (failures here are reported by the checks themselves)
 python3 tools/warm.py || true
